@@ -7,7 +7,7 @@ out=$1; secs=$2; seed=$3; shift 3
 mkdir -p $out; cp "$(dirname "$0")"/*.tla "$(dirname "$0")"/*.cfg $out; cd $out
 for spec in "$@"; do
   kind=${spec%%:*}; c=${spec##*:}
-  if [ $kind = alt ]; then mod=MC_LachesisAlt; cfg=MC_LachesisAlt_$c.cfg; else mod=MC_Lachesis; cfg=MC_Lachesis_$c.cfg; fi
+  if [ $kind = alt ]; then mod=MC_LachesisAlt; cfg=MC_LachesisAlt_$c.cfg; elif [ $kind = el ]; then mod=MC_Election; cfg=MC_Election_$c.cfg; else mod=MC_Lachesis; cfg=MC_Lachesis_$c.cfg; fi
   (timeout $secs java -XX:+UseParallelGC -XX:ParallelGCThreads=2 -Xmx3g -cp /opt/veriftools/tla/tla2tools.jar:/opt/veriftools/tla/CommunityModules-deps.jar tlc2.TLC \
      -metadir $out/m_$c -config $cfg -workers 1 -simulate num=100000000 -depth 31 -continue -seed $seed $mod > out_${c}_$seed.txt 2>&1 &)
 done
